@@ -26,7 +26,10 @@ VARIABLE mix   \* goroutine -> sequence of request names
 
 mcvars == <<vars, mix>>
 
+\* U-exec (the universe of the execution family) is used by the free-running stress as well
+EU == INSTANCE ExecUniverse
 ASSUME PrintT("@@UNI " \o ToJson([uni |-> LazyUni, labels |-> LabelCode]))
+ASSUME PrintT("@@UEXEC " \o ToJson(EU!UExec))
 ASSUME TLCSet(2, {})
 
 NReq == Len(LazyReqSeq)
@@ -64,6 +67,7 @@ QuickPlan == [plain |-> {"single", "pair", "seq"}, godir |-> {"single", "seq", "
 FullPlan == [w \in DOMAIN LazyWorlds |-> {"single", "pair", "seq", "triple", "pairseq"}]
 PairPlan == [w \in DOMAIN LazyWorlds |-> {"single", "pair", "seq"}]
 SmallPlan == [plain |-> {"pairsel", "seq"}]
+TriplePlan == [plain |-> {"triple", "pairseq"}, registered |-> {"triple", "pairseq"}]
 
 MCInit == \E w \in DOMAIN Plan : \E m \in MixSet(Plan[w]) : mix = m /\ InitWith(w, ProgOf(m))
 MCNext == Next /\ UNCHANGED mix
